@@ -164,7 +164,7 @@ func (p *ProcessorAPIv1) GetProcessor(
 	req *apiv1.GetProcessorRequest,
 ) (*apiv1.GetProcessorResponse, error) {
 	if req.Id == "" {
-		return nil, cerrors.ErrEmptyID
+		return nil, status.ProcessorError(cerrors.ErrEmptyID)
 	}
 
 	// fetch the processor from the ProcessorOrchestrator
@@ -215,7 +215,7 @@ func (p *ProcessorAPIv1) UpdateProcessor(
 	req *apiv1.UpdateProcessorRequest,
 ) (*apiv1.UpdateProcessorResponse, error) {
 	if req.Id == "" {
-		return nil, cerrors.ErrEmptyID
+		return nil, status.ProcessorError(cerrors.ErrEmptyID)
 	}
 
 	updated, err := p.processorOrchestrator.Update(ctx, req.Id, req.Plugin, fromproto.ProcessorConfig(req.Config))
